@@ -249,7 +249,7 @@ PROPERTIES = {
         level='proof',
         functions=['packet:Packet.__eq__', 'packet:Packet.__repr__',
                    # positioning pseudo-fields never write a slot: their placeholder entries stay unset and are skipped by ==
-                   'structural_fields:Move.unpack', 'structural_fields:Move.pack'],
+                   'structural_fields:Move.unpack', 'structural_fields:Move.pack', 'structural_fields:Move.init'],
         trusted_base=_COMMON_TRUST,
         assumptions=["value comparison `!=` of two field values is total (does not raise) and is the negation of `==`",
                      "__ne__ is python's default negation of __eq__ (Packet defines no __ne__)"],
